@@ -31,6 +31,7 @@ FAMILIES = dict(
     nestedtry=("s", "trye", "raise", "return"),
     tryret=("s", "if", "trye", "return", "raise"),
     tryfin=("s", "tryef", "tryf", "raise", "return"),
+    finnest=("s", "if", "while", "tryf", "raise"),       # try/finally statements nested in finally blocks, under conditions and loops
 )
 
 
